@@ -167,7 +167,7 @@ theorem hsServerSRP_ok (C : Crypto) (ver : Nat) (user : Bytes) (N v b A u : Nat)
 
 /-! ### Checker -/
 
-theorem wrapper_mismatch (fpf : Chain → Bytes) (fp : Bytes) (isClient : Bool) (o : Outcome) (sess : Session)
+theorem wrapper_mismatch (fpf : Cert → Bytes) (fp : Bytes) (isClient : Bool) (o : Outcome) (sess : Session)
     (hs : o.session = some sess) (hbad : checkerOk fpf fp isClient sess = false) :
     (wrapper fpf (some fp) isClient o).completed = false ∧
     (o.completed = true → (wrapper fpf (some fp) isClient o).closed = true ∧
@@ -178,7 +178,7 @@ theorem wrapper_mismatch (fpf : Chain → Bytes) (fp : Bytes) (isClient : Bool) 
   · have hc' : o.completed = true := by simpa using hc
     simp [hc', hs, hbad]
 
-theorem wrapper_ok (fpf : Chain → Bytes) (fp : Bytes) (isClient : Bool) (o : Outcome)
+theorem wrapper_ok (fpf : Cert → Bytes) (fp : Bytes) (isClient : Bool) (o : Outcome)
     (h : (wrapper fpf (some fp) isClient o).completed = true) :
     o.completed = true ∧ ∀ sess, o.session = some sess → checkerOk fpf fp isClient sess = true := by
   unfold wrapper at h
@@ -191,5 +191,16 @@ theorem wrapper_ok (fpf : Chain → Bytes) (fp : Bytes) (isClient : Bool) (o : O
     by_cases hk : checkerOk fpf fp isClient sess = true
     · exact hk
     · simp [hk] at h
+
+
+/-- the checker passes exactly when the pin is the fingerprint of the end-entity certificate of
+    the recorded peer chain -/
+theorem checkerOk_iff (fpf : Cert → Bytes) (fp : Bytes) (isClient : Bool) (sess : Session) :
+    checkerOk fpf fp isClient sess = true ↔
+      ∃ c rest, (if isClient then sess.serverCertChain else sess.clientCertChain) = c :: rest ∧ fpf c = fp := by
+  unfold checkerOk
+  cases h : (if isClient = true then sess.serverCertChain else sess.clientCertChain) with
+  | nil => simp
+  | cons c rest => simp
 
 end Tls.Auth
